@@ -287,11 +287,61 @@ def r4(c, db):
     sv = repo.func("annet.annlib.netdev.db", "_make_seq_variants")
     txt = norm(sv)
     ok = "seq[left:-right] + (seq[-1],)" in txt and "range(len(seq))" in txt and "range(1, len(seq[left:]) + 1)" in txt
-    al = repo.func("annet.annlib.netdev.db", "_make_allowed_by_seq")
-    ok2 = "all_variants[variant] <= 1" in norm(al)
+    al = repo.func("annet.annlib.netdev.db", "_make_allowed_by_seq", canon=False)
+    ok2 = _unique_claim(c, repo, m, al)
     if not (ok and ok2):
         raise AnchorError("annlib/netdev/db.py: addressing rule (_make_seq_variants/_make_allowed_by_seq) no longer has the shape the checker's specification restates")
     c.holds("C18.R4", repo.loc(m, sv), "db._make_seq_variants/spec", "addressing rule matches the restated specification")
+
+
+def _unique_claim(c, repo, m, al):
+    """_make_allowed_by_seq keeps a short form only when exactly one sequence produces it.  Structural form of that: the claims are aggregated over *all* sequences first
+    (phase 1), the filter reads the finished aggregate (phase 2) and keeps a variant when its count is at most one.  A filter that reads the aggregate inside the loop that is
+    still filling it sees only the sequences listed earlier: the form then belongs to the first claimant instead of nobody (hw.<family> true without its ancestor)."""
+    if not al.args.args:
+        return False
+    SEQS = al.args.args[0].arg
+    pv = Provenance(al)
+    loops = []
+    for n in walk_no_nested(al):
+        if isinstance(n, ast.For):
+            names, _ = pv.iteration_bases(n.iter)
+            if SEQS in names or any(isinstance(x, ast.Name) and x.id == SEQS for x in ast.walk(n.iter)):
+                loops.append(n)
+    partial = []
+    for lp in loops:
+        recv = {}
+        for n in ast.walk(lp):
+            t = None
+            if isinstance(n, ast.Call) and isinstance(n.func, ast.Attribute) and n.func.attr in ("update", "add", "append", "extend", "subtract") and isinstance(n.func.value, ast.Name):
+                t = n.func.value
+            elif isinstance(n, ast.AugAssign) and isinstance(n.target, ast.Name):
+                t = n.target
+            elif isinstance(n, ast.AugAssign) and isinstance(n.target, ast.Subscript) and isinstance(n.target.value, ast.Name):
+                t = n.target.value
+            elif isinstance(n, ast.Assign) and isinstance(n.targets[0], ast.Subscript) and isinstance(n.targets[0].value, ast.Name):
+                t = n.targets[0].value
+            if t is not None:
+                recv.setdefault(t.id, set()).add(id(t))
+        for n in ast.walk(lp):
+            if isinstance(n, ast.Name) and n.id in recv and id(n) not in recv[n.id] and isinstance(n.ctx, ast.Load):
+                partial.append((lp, n))
+    for lp, n in partial:
+        c.violated("C18.R4", repo.loc(m, n), f"db._make_allowed_by_seq/partial-aggregate:{n.id}", f"`{n.id}` is read inside the loop over the sequences that is still filling it: which short "
+                   "forms a sequence may be addressed by then depends on the sequences listed before it in devdb.json — an ambiguous form goes to the first claimant instead of "
+                   "nobody, so hw.<form> is true for one family while false for its sibling and the prefix-closure of the true families is lost", key_text="partial-aggregate")
+    if partial:
+        return True                       # decided (violated); the anchor itself is intact
+    # phase 2: a comparison `AGG[variant] <= 1` (or < 2, == 1) outside the aggregation loops
+    in_loops = {id(x) for lp in loops for x in ast.walk(lp)}
+    for n in ast.walk(al):
+        if isinstance(n, ast.Compare) and id(n) not in in_loops and len(n.ops) == 1 and isinstance(n.left, ast.Subscript) and isinstance(n.comparators[0], ast.Constant):
+            op, k = type(n.ops[0]).__name__, n.comparators[0].value
+            if (op, k) in (("LtE", 1), ("Lt", 2), ("Eq", 1)):
+                return True
+            c.violated("C18.R4", repo.loc(m, n), "db._make_allowed_by_seq/threshold", f"a short form is kept under `{norm(n)}`; expected: produced by exactly one sequence", key_text="threshold")
+            return True
+    return False
 
 
 def r5(c, db):
